@@ -46,8 +46,31 @@ def rand_value(rng):
     return bytes(rng.getrandbits(8) for _ in range(n))
 
 
+def rand_cparams(rng):
+    """Cryptographic parameters with a random subset of all their fields (falsy values included)."""
+    if rng.random() < 0.2:
+        return None
+    menu = {
+        'block_cipher_mode': lambda: rng.choice(list(E.BlockCipherMode)),
+        'padding_method': lambda: rng.choice(list(E.PaddingMethod)),
+        'hashing_algorithm': lambda: rng.choice(list(E.HashingAlgorithm)),
+        'key_role_type': lambda: rng.choice(list(E.KeyRoleType)),
+        'digital_signature_algorithm': lambda: rng.choice(list(E.DigitalSignatureAlgorithm)),
+        'cryptographic_algorithm': lambda: rng.choice(list(E.CryptographicAlgorithm)[:20]),
+        'random_iv': lambda: rng.choice((True, False)),
+        'iv_length': lambda: rng.choice((0, 8, 12, 16)),
+        'tag_length': lambda: rng.choice((0, 12, 16)),
+        'fixed_field_length': lambda: rng.choice((0, 4)),
+        'invocation_field_length': lambda: rng.choice((0, 8)),
+        'counter_length': lambda: rng.choice((0, 4)),
+        'initial_counter_value': lambda: rng.choice((0, 1)),
+    }
+    names = rng.sample(sorted(menu), rng.randrange(1, 6))
+    return cparams(**{n: menu[n]() for n in names})
+
+
 def rand_wrapping(rng):
-    if rng.random() < 0.6:
+    if rng.random() < 0.5:
         return None
     kw = {}
     kw['wrapping_method'] = rng.choice(list(E.WrappingMethod))
@@ -55,16 +78,11 @@ def rand_wrapping(rng):
     if 'eki' in fields:
         kw['encryption_key_information'] = cobjects.EncryptionKeyInformation(
             unique_identifier=rng.choice(('1', '0', 'wrap-key', '')) or '1',
-            cryptographic_parameters=rng.choice((None, cparams(block_cipher_mode=rng.choice(list(E.BlockCipherMode))),
-                                                 cparams(block_cipher_mode=E.BlockCipherMode.NIST_KEY_WRAP,
-                                                         padding_method=E.PaddingMethod.NONE, random_iv=False,
-                                                         iv_length=0, tag_length=0),
-                                                 cparams(hashing_algorithm=E.HashingAlgorithm.SHA_256,
-                                                         key_role_type=E.KeyRoleType.KEK))))
+            cryptographic_parameters=rand_cparams(rng))
     if 'mski' in fields:
         kw['mac_signature_key_information'] = cobjects.MACSignatureKeyInformation(
             unique_identifier=rng.choice(('2', '77')),
-            cryptographic_parameters=rng.choice((None, cparams(cryptographic_algorithm=E.CryptographicAlgorithm.HMAC_SHA256))))
+            cryptographic_parameters=rand_cparams(rng))
     if 'mac' in fields:
         kw['mac_signature'] = rng.choice((b'\x00', b'\x01\x02\x03', rand_value(rng)))
     if 'iv' in fields:
@@ -126,16 +144,21 @@ def gen_object(rng, version):
         attrs.append(rig.attr(A.NAME, name_value('nm-%06x' % rng.getrandbits(24), nt), i))
     if nn:
         supplied['Name'] = nn
-    ng = rng.choice((0, 0, 1, 3))
+    # group names come from a small pool (objects share groups, in different orders) plus unique ones
+    pool = ['payments', 'staging', 'team-a', 'grp-%04x' % rng.getrandbits(16), 'grp-%04x' % rng.getrandbits(16)]
+    glist = rng.sample(pool, rng.choice((0, 0, 1, 2, 3)))
+    ng = len(glist)
     for i in range(ng):
-        attrs.append(rig.attr(A.OBJECT_GROUP, 'grp-%04x' % rng.getrandbits(16), i))
+        attrs.append(rig.attr(A.OBJECT_GROUP, glist[i], i))
     if ng:
         supplied['Object Group'] = ng
-    na = rng.choice((0, 0, 1, 3))
+    apool = [('ssl', 'www.example.com'), ('ldap', 'cn=x'), ('ns-%04x' % rng.getrandbits(16), 'data-%04x' % rng.getrandbits(16)),
+             ('ns-%04x' % rng.getrandbits(16), 'data-%04x' % rng.getrandbits(16))]
+    alist = rng.sample(apool, rng.choice((0, 0, 1, 2, 3)))
+    na = len(alist)
     for i in range(na):
         attrs.append(rig.attr(A.APPLICATION_SPECIFIC_INFORMATION,
-                              {'application_namespace': 'ns-%04x' % rng.getrandbits(16),
-                               'application_data': 'data-%04x' % rng.getrandbits(16)}, i))
+                              {'application_namespace': alist[i][0], 'application_data': alist[i][1]}, i))
     if na:
         supplied['Application Specific Information'] = na
     if version >= (1, 4) and rng.random() < 0.4:
@@ -296,7 +319,14 @@ def first_diff(a, b, path=''):
         if ta != tb:
             miss = [t for t in ta if t not in tb]
             extra = [t for t in tb if t not in ta]
-            return '%s/%06X:%s' % (path, a[0], ('missing-%06X' % miss[0]) if miss else ('extra-%06X' % extra[0] if extra else 'order'))
+            falsy = ''
+            if miss:
+                sub = [k for k in a[2] if k[0] == miss[0]][0]
+                leaves = [it[2] for _, it in T.walk(sub) if it[1] != T.STRUCTURE]
+                if leaves and not any(leaves):
+                    falsy = ':all-falsy'
+            return '%s/%06X:%s' % (path, a[0], ('missing-%06X%s' % (miss[0], falsy)) if miss else (
+                'extra-%06X' % extra[0] if extra else 'order'))
         for x, y in zip(a[2], b[2]):
             if x != y:
                 return first_diff(x, y, '%s/%06X' % (path, a[0]))
